@@ -5,70 +5,114 @@
      (C04_exec_refines_sem, C04B_semq_conservative, the C04 correspondence incl.
      its quantum stream) -- produces on the ASSEMBLED, FLATTENED LOWERING of the
      program, subroutine by subroutine (one per flush), on one application state.
-   Statements only.  Proofs: Proofs/Bridge_E2E.v (composition),
-   Proofs/Bridge_SdkAsm.v (Target -> AsmSemQ source), Proofs/Bridge_AsmQ.v (AsmSemQ
-   assembled -> SemQ), and the owners' C05 (block_step, flatten_correct) and C03
-   (assemble_trace_q) theorems.
+   Statements only.  Proofs: Proofs/Bridge_E2E.v, Bridge_E2E_H1.v (composition),
+   Bridge_SdkAsm.v / Bridge_SdkAsmLog.v (Target -> AsmSemQ source, with C03's log),
+   Bridge_AsmQ.v / Bridge_AsmQLog.v (AsmSemQ assembled -> SemQ), and the owners'
+   theorems: C05 block_step, flatten_correct, lower_prog_code_ok; C03
+   assemble_halts_no_bad_q (instruction-level export), assemble_total_machine_form.
 
-   PARTIAL.  Two hypotheses remain beyond those of C05_sdk_compile_correct and of
-   C03 (parameters ok):
-   (H1) `compiled pr cap bs qps`, i.e. per flushed block: the flat code translates
-        (no IOpaque/EPR command), passes the static check Bridge_SdkAsm.code_ok
-        (register indices < 16; every qalloc directly preceded by the `set` of its
-        operand to an id < cap -- the shape Lower.v emits), the assembler accepts it
-        (assemble_ir = AOk) and its output is in the fragment of Bridge_AsmQ
-        (e_qprog defined).  All decidable: Bridge_E2E.compile_blocks computes it.
-        Missing to discharge it for ALL wfs programs: (C05 owner) a lemma that
-        lower_prog's output satisfies code_ok for cap >= the number of live qubit
-        ids, and (C03 owner) a lemma that assemble_ir's output of a wf_src_q program
-        over the modelled mnemonics is in the fragment.
-   (H2) `qblocks_defined qps s0`: the run of the common semantics never reaches
-        behaviour C04 leaves open (negative index / length / qubit id, branch on an
-        undefined register).  It cannot happen here (the Target run faults on all
-        of these and C05 shows it does not fault), but deriving it needs C03's
-        simulation at the level of single executed instructions (every executed
-        assembled instruction is an inserted `set` or the image of the source
-        instruction with equal operand values), which AsmQProofs does not export.
-        For a terminating run it is decided by computation
-        (Bridge_E2E.qblocks_defined_by_run). *)
+   C05_end_to_end is stated at the REGENERATED assembler parameters (Gen_Asm.gen_params,
+   regenerated from /repo by gen/asm_tables.py on every run of the C04 check; their side
+   conditions are checked here by vm_compute).  Its premises beyond C05's own:
+     (P1) qpeak segs <= cap : the unit module handed to the application has room for the
+          peak number of simultaneously live qubits (else the executor faults: FUnitRange);
+     (P2) blocks_scratch_ok gen_params bs = true : DECIDABLE residual -- in every flushed
+          block each command needs no more scratch R registers for its literal operands than
+          the block leaves unnamed.  Otherwise the real assembler raises (C03:
+          C03_assemble_rejects, ENoScratch), so some such premise is inherent; it is not
+          derived from wfs (register pressure is C14's subject).
+   The earlier hypotheses H1 (compiled) and H2 (qblocks_defined) are gone: H1 follows from
+   lower_prog_code_ok + assemble_total_machine_form + (proved in Bridge_E2E_H1: the translated
+   flat code exists, is modelled, uses the four banks, has distinct and defined labels); H2 from
+   C03's instruction-level export: Target does not fault => no executed source instruction is
+   `bad` => none of the assembled run is => SemQ is never open (Bridge_AsmQLog.asmq_halting).
+   Reserved registers: the chain uses assemble_ir, i.e. assemble_ir_res with the empty
+   reservation (AsmResProofs.assemble_ir_res_nil); at a flush of a wfs program the lowering
+   state claims no register (BlockStart: no loop variables, no live register futures). *)
 From Coq Require Import ZArith List Bool Arith.
 From NQ Require Import Sdk.SdkAst Sdk.Target Sdk.Eval Sdk.MemMgr Sdk.Lower Sdk.Flatten Sdk.Wf.
 From NQ Require Import Proofs.SdkTopProofs.
-From NQ Require Lang.Asm Lang.AsmSemQ Proofs.AsmProofs Proofs.AsmQProofs.
+From NQ Require Lang.Asm Lang.AsmSemQ Proofs.AsmProofs Proofs.AsmQProofs Proofs.AsmQMachine.
 From NQ Require Exec.State Exec.Sem Exec.SemQ.
-From NQ Require Proofs.Bridge_AsmQ Proofs.Bridge_SdkAsm Proofs.Bridge_E2E.
+From NQ Require Proofs.Bridge_AsmQ Proofs.Bridge_AsmQLog Proofs.Bridge_SdkAsm Proofs.Bridge_E2E Proofs.Bridge_E2E_H1.
+From Gen Require Gen_Asm.
 Import ListNotations.
 
 Module E2E := NQ.Proofs.Bridge_E2E.
+Module H1 := NQ.Proofs.Bridge_E2E_H1.
 Local Open Scope Z_scope.
 
-(* the full statement the coordinator asked for (no residual hypotheses): kept
-   visible; NOT proved *)
-Definition end_to_end_full : Prop :=
-  forall pr segs script e bs stL,
-    AsmProofs.params_ok pr = true -> AsmSemQ.qexempt_ok (Asm.ap_exempt pr) = true ->
+(* the regenerated parameters satisfy C03's side conditions *)
+Theorem C05_e2e_params_ok :
+  AsmProofs.params_ok Gen_Asm.gen_params = true /\
+  AsmQMachine.qexempt_exact (Asm.ap_exempt Gen_Asm.gen_params) = true /\
+  AsmQMachine.bank_valid (Asm.ap_bankR Gen_Asm.gen_params) = true.
+Proof. vm_compute. repeat split; reflexivity. Qed.
+
+(* THE END-TO-END STATEMENT *)
+Definition end_to_end_statement (pr : Asm.aparams) : Prop :=
+  forall cap segs script e bs stL,
     Forall (fun seg => bwfs seg = true) segs ->
     eval_prog (prog_of segs) script = Some e ->
     lower_prog true (prog_of segs) = Ok (bs, stL) ->
-    exists cap qps fuel s,
+    (qpeak segs <= cap)%nat ->                                   (* P1 *)
+    H1.blocks_scratch_ok pr bs = true ->                         (* P2: decidable residual *)
+    exists qps fuel s,
       E2E.compile_blocks pr cap bs = Some qps /\
       E2E.qrun_blocks fuel qps (SemQ.mkQ (State.init_state cap) script []) = (s, State.Halt) /\
       Bridge_SdkAsm.inst_trace (SemQ.q_trace s) = e_trace e /\
       (forall a, State.find Z.eqb (Z.of_nat a) (State.arrs (SemQ.q_st s)) = alookup a (e_arr e)).
 
-(* what is proved: the same conclusion under (H1) and (H2) *)
+Theorem C05_end_to_end : end_to_end_statement Gen_Asm.gen_params.
+Proof.
+  intros cap segs script e bs stL Hw Hev Hl Hcap Hs.
+  destruct C05_e2e_params_ok as (Hp & Hq & Hb).
+  exact (H1.sdk_end_to_end_full Gen_Asm.gen_params cap segs script e bs stL Hp Hq Hb Hw Hev Hl Hcap Hs).
+Qed.
+
+(* for any parameters meeting C03's side conditions *)
+Theorem C05_end_to_end_params : forall pr,
+  AsmProofs.params_ok pr = true -> AsmQMachine.qexempt_exact (Asm.ap_exempt pr) = true ->
+  AsmQMachine.bank_valid (Asm.ap_bankR pr) = true -> end_to_end_statement pr.
+Proof.
+  intros pr Hp Hq Hb cap segs script e bs stL Hw Hev Hl Hcap Hs.
+  exact (H1.sdk_end_to_end_full pr cap segs script e bs stL Hp Hq Hb Hw Hev Hl Hcap Hs).
+Qed.
+
+(* the intermediate forms (kept): given the compiled blocks explicitly, no scratch premise *)
+Theorem C05_end_to_end_compiled : forall pr cap segs script e bs stL qps,
+  AsmProofs.params_ok pr = true -> AsmSemQ.qexempt_ok (Asm.ap_exempt pr) = true ->
+  Forall (fun seg => bwfs seg = true) segs ->
+  eval_prog (prog_of segs) script = Some e ->
+  lower_prog true (prog_of segs) = Ok (bs, stL) ->
+  E2E.compiled pr cap bs qps ->
+  exists fuel s,
+    E2E.qrun_blocks fuel qps (SemQ.mkQ (State.init_state cap) script []) = (s, State.Halt) /\
+    Bridge_SdkAsm.inst_trace (SemQ.q_trace s) = e_trace e /\
+    (forall a, State.find Z.eqb (Z.of_nat a) (State.arrs (SemQ.q_st s)) = alookup a (e_arr e)).
+Proof. exact E2E.sdk_end_to_end2. Qed.
+
+(* the first version, with both hypotheses H1 (compiled) and H2 (qblocks_defined) *)
 Theorem C05_end_to_end_partial : forall pr cap segs script e bs stL qps,
   AsmProofs.params_ok pr = true -> AsmSemQ.qexempt_ok (Asm.ap_exempt pr) = true ->
   Forall (fun seg => bwfs seg = true) segs ->
   eval_prog (prog_of segs) script = Some e ->
   lower_prog true (prog_of segs) = Ok (bs, stL) ->
-  E2E.compiled pr cap bs qps ->                                                   (* H1 *)
-  E2E.qblocks_defined qps (SemQ.mkQ (State.init_state cap) script []) ->          (* H2 *)
+  E2E.compiled pr cap bs qps ->
+  E2E.qblocks_defined qps (SemQ.mkQ (State.init_state cap) script []) ->
   exists fuel s,
     E2E.qrun_blocks fuel qps (SemQ.mkQ (State.init_state cap) script []) = (s, State.Halt) /\
     Bridge_SdkAsm.inst_trace (SemQ.q_trace s) = e_trace e /\
     (forall a, State.find Z.eqb (Z.of_nat a) (State.arrs (SemQ.q_st s)) = alookup a (e_arr e)).
 Proof. exact E2E.sdk_end_to_end. Qed.
+
+(* the bridge AsmSemQ -> SemQ without a domain hypothesis *)
+Theorem C04B_asmq_halting : forall m T p a s k t,
+  Bridge_AsmQ.e_qprog T = Some p -> Bridge_AsmQ.qrel a s ->
+  AsmSemQ.arun_q T m (AsmSemQ.QRun k a) = AsmSemQ.QHalted t ->
+  Bridge_AsmQLog.log_ok (AsmQLog.alog_q T m (AsmSemQ.QRun k a)) ->
+  exists s' pc', SemQ.qrun_from p s (Z.of_nat k) m = (s', pc', State.Halt) /\ Bridge_AsmQ.qrel t s'.
+Proof. exact Bridge_AsmQLog.asmq_halting. Qed.
 
 (* (H1) and (H2) are decidable for a given program *)
 Theorem C05_e2e_compiled_decidable : forall pr cap bs qps,
@@ -96,8 +140,7 @@ Proof. exact Bridge_AsmQ.asmq_bridge_from. Qed.
 (* ------------------------------------------------------------------ non-vacuity: C05's two-flush example
    (arrays, one initialised by the all-equal loop; foreach + if on a Future + add with
    modulus; loop_until with cleanup; loop_body with an if on its index; a measurement
-   into a fresh array).  All hypotheses hold, by computation, with C03's example
-   parameters and a unit module of 2 qubits; and the conclusion is observed. *)
+   into a fresh array).  (see C05_end_to_end_nonvacuous below) *)
 Definition ex_segs : list block :=
   [ blk [SNewArray 0 3 (Some [Some 1; Some 1; Some 1]); SNewArray 1 2 (Some [Some 0; Some 5]); SNewQubit 0;
          SForeach true 0 0 (blk [SIf CEq false (VFut 0 (IxV 0)) (VInt 1)
@@ -108,39 +151,42 @@ Definition ex_segs : list block :=
          SMeasNew 0 false 2] ].
 
 Definition ex_script : list Z := [1; 0; 1].
-Definition ex_pr : Asm.aparams := AsmQProofs.exq_params.
+Definition ex_pr : Asm.aparams := Gen_Asm.gen_params.
 Definition ex_cap : nat := 2%nat.
 
+(* the premises of C05_end_to_end hold of C05's two-flush example at the regenerated
+   parameters (P1: qpeak = 2 <= 2; P2 by computation), and its conclusion is observed *)
 Example C05_end_to_end_nonvacuous :
-  AsmProofs.params_ok ex_pr = true /\ AsmSemQ.qexempt_ok (Asm.ap_exempt ex_pr) = true /\
   Forall (fun seg => bwfs seg = true) ex_segs /\
-  exists e bs stL qps,
+  (qpeak ex_segs <= ex_cap)%nat /\
+  exists e bs stL,
     eval_prog (prog_of ex_segs) ex_script = Some e /\
     lower_prog true (prog_of ex_segs) = Ok (bs, stL) /\
-    E2E.compiled ex_pr ex_cap bs qps /\
-    E2E.qblocks_defined qps (SemQ.mkQ (State.init_state ex_cap) ex_script []) /\
-    List.length qps = 2%nat /\ (12 <= List.length (e_trace e))%nat /\
-    (* and the conclusion, observed by running the common semantics *)
-    match E2E.qrun_blocks 3000%nat qps (SemQ.mkQ (State.init_state ex_cap) ex_script []) with
-    | (s, State.Halt) => Bridge_SdkAsm.inst_trace (SemQ.q_trace s) = e_trace e
-    | _ => False
+    H1.blocks_scratch_ok ex_pr bs = true /\
+    (12 <= List.length (e_trace e))%nat /\
+    match E2E.compile_blocks ex_pr ex_cap bs with
+    | Some qps =>
+        List.length qps = 2%nat /\
+        match E2E.qrun_blocks 3000%nat qps (SemQ.mkQ (State.init_state ex_cap) ex_script []) with
+        | (s, State.Halt) => Bridge_SdkAsm.inst_trace (SemQ.q_trace s) = e_trace e
+        | _ => False
+        end
+    | None => False
     end.
 Proof.
-  split; [vm_compute; reflexivity|]. split; [vm_compute; reflexivity|].
-  split; [repeat constructor|].
+  split; [repeat constructor|]. split; [apply Nat.leb_le; vm_compute; reflexivity|].
   destruct (eval_prog (prog_of ex_segs) ex_script) as [e|] eqn:Ee; [|vm_compute in Ee; discriminate].
   destruct (lower_prog true (prog_of ex_segs)) as [[bs stL]|] eqn:El; [|vm_compute in El; discriminate].
-  destruct (E2E.compile_blocks ex_pr ex_cap bs) as [qps|] eqn:Ec;
-    [|vm_compute in El; inversion El; subst; vm_compute in Ec; discriminate].
-  exists e, bs, stL, qps. split; [reflexivity|]. split; [reflexivity|].
-  split; [apply E2E.compile_blocks_compiled; exact Ec|].
-  vm_compute in Ee. inversion Ee; subst e. vm_compute in El. inversion El; subst bs stL.
-  vm_compute in Ec. inversion Ec; subst qps. clear Ee El Ec.
-  split; [apply (E2E.qblocks_defined_by_run 3000%nat); vm_compute; reflexivity|].
-  split; [reflexivity|]. split; [apply Nat.leb_le; vm_compute; reflexivity|].
-  vm_compute. reflexivity.
+  exists e, bs, stL. split; [reflexivity|]. split; [reflexivity|].
+  vm_compute in Ee. inversion Ee; subst e. vm_compute in El. inversion El; subst bs stL. clear Ee El.
+  split; [vm_compute; reflexivity|]. split; [apply Nat.leb_le; vm_compute; reflexivity|].
+  vm_compute. split; reflexivity.
 Qed.
 
+Print Assumptions C05_end_to_end.
+Print Assumptions C05_end_to_end_params.
+Print Assumptions C05_end_to_end_compiled.
+Print Assumptions C04B_asmq_halting.
 Print Assumptions C05_end_to_end_partial.
 Print Assumptions C05_e2e_sdk_link.
 Print Assumptions C05_e2e_asmq_link.
